@@ -13,6 +13,10 @@
     Every finite binary64 number IS printable (C09_finite_numbers_print_as_plain_decimal, Proofs/NumPrintable.v: every digit the
     shortest-representation model produces is a decimal digit -- the loop keeps remainder < scale, and the estimate of
     the decimal exponent is never too small, checked for all 2201 possible binary exponents by computation).
+    Every number-producing operation of the model yields a valid binary64 from valid operands (C09_number_operations_preserve_validity,
+    Proofs/NumValid.v, through Flocq's operations on binary_float) -- so the hypothesis of the printing theorem is met by
+    every literal and by every result of arithmetic on valid numbers (the induction over whole runs that would put this
+    into the machine invariant is not done: it would make every theorem about the machine depend on the real-number axioms).
     NOT proved: that the model of f64::to_string (flt2dec Dragon) prints shortest digits that read back to THE SAME
     double.  This is a Rust std function: modelled, and tied by the f64
     stream (bit-exact on >= 10^4 values per run) and by the numbers stream, whose direct check of read-back equality on
@@ -20,7 +24,7 @@
 From Coq Require Import Reals.
 From Flocq Require Import Core.Core IEEE754.BinarySingleNaN.
 From Pakhi Require Import Base Float64 Syntax Tables Lexer Interp.
-From Pakhi.Proofs Require Import Num NumText NumNearest NumShape NumPrintable.
+From Pakhi.Proofs Require Import Num NumText NumNearest NumShape NumPrintable NumValid.
 Local Open Scope nat_scope.
 
 Theorem C09_digit_tables :
@@ -135,3 +139,15 @@ Theorem C09_shortest_digits_are_decimal_digits : forall m e, bounded Float64.pre
   let '(ds, _) := format_shortest m e in Forall (fun d => (0 <= d <= 9)%Z) ds.
 Proof. exact format_shortest_le9. Qed.
 Print Assumptions C09_shortest_digits_are_decimal_digits.
+
+(** the numbers of the model are binary64 numbers: [valid x] is SpecFloat's [valid_binary 53 1024 x = true] *)
+Theorem C09_number_operations_preserve_validity :
+  (forall x y, valid x -> valid y -> valid (f_add x y)) /\ (forall x y, valid x -> valid y -> valid (f_sub x y)) /\
+  (forall x y, valid x -> valid y -> valid (f_mul x y)) /\ (forall x y, valid x -> valid y -> valid (f_div x y)) /\
+  (forall x y, valid x -> valid y -> valid (f_rem x y)) /\ (forall x, valid x -> valid (f_neg x)) /\
+  (forall n, valid (f_of_Z n)) /\ (forall s v, parse_f64 s = Some v -> valid v).
+Proof.
+  split; [exact f_add_valid|]. split; [exact f_sub_valid|]. split; [exact f_mul_valid|]. split; [exact f_div_valid|].
+  split; [exact f_rem_valid|]. split; [exact f_neg_valid|]. split; [exact f_of_Z_valid|exact parse_f64_valid].
+Qed.
+Print Assumptions C09_number_operations_preserve_validity.
